@@ -123,9 +123,13 @@ def run(pid, tier, rdir, seed):
         err = bp.stderr
         import re
         m = re.search(r"error(\[E\d+\])?: (.*)\n\s*--> src/lib\.rs:(\d+)", err)
+        lib = open(os.path.join(d, "src", "lib.rs")).read().split("\n")
+        # an error AT an item header (duplicate definition etc.) is a defect of the generator, not of the expansion
+        if m and re.match(r"\s*pub fn ", lib[int(m.group(3)) - 1]):
+            res["undecided"].append("R spawn_sweep: the harness generator produced an ill-formed crate: %s" % m.group(2)[:200])
+            return res
         if m:
             line = int(m.group(3))
-            lib = open(os.path.join(d, "src", "lib.rs")).read().split("\n")
             hn = ""
             for k in range(line - 1, -1, -1):
                 mm = re.match(r"pub fn (\w+)\(\)", lib[k])
